@@ -1,13 +1,19 @@
 """C15 -- character arrays and strings round-trip, including the terminator.
 
-E1: every string of length <= n over a code-unit alphabet x the six character
-element types x array lengths {len-1, len, len+1, len+3, open} x store paths
-{ffi.new initializer (clearing and non-clearing allocator), item assignment of
-a nested array, struct field assignment, function-argument conversion}, on
-memory pre-filled with a non-zero unit.  Oracle: a unit-level model of C
-strings (written units, exactly one terminator when shorter, later units
-untouched; string() stops at the first zero within maxlen; unpack() returns
-exactly n units), observed through the raw bytes of ffi.buffer.
+E1: every string of length <= n over a code-unit alphabet x the character
+element types (six by name + int8_t/uint8_t) x array lengths {len-1, len,
+len+1, len+3, open} x store paths {ffi.new initializer (clearing and
+non-clearing allocator), item assignment of a nested array, struct field
+assignment, function-argument conversion (in-line ABI and compiled API mode),
+struct initialisers (dict / list), union field, field of a nested struct, field
+of a struct-array element, nested list initialiser, flexible array member
+initialiser (list / dict), from_buffer view}, on memory pre-filled with a
+non-zero unit.  Oracle: a unit-level model of C strings (written units, exactly
+one terminator when shorter, later units untouched; string() stops at the first
+zero within maxlen; unpack() returns exactly n units), observed through the raw
+bytes of ffi.buffer.  Reads are also made with maxlen beyond the array (up to
+2**63-1) where the following units are known, and through slices arr[i:j]
+(arrays whose length lives in the cdata).
 """
 import itertools
 import json
@@ -30,12 +36,27 @@ META = dict(
          "argument of a C function.  The raw units of the target and of its neighbours are compared with the model; "
          "ffi.string (array and pointer form, every interesting maxlen) and ffi.unpack are compared with the model "
          "applied to the units that are really in memory; the round trip ffi.string(ffi.new('T[]', s)) == s is "
-         "checked for every s without a zero unit.",
+         "checked for every s without a zero unit.  Extensions (audit gaps): int8_t / uint8_t element types; the "
+         "store routes struct initialiser (dict and list form), union field, field of a nested struct, field of an "
+         "element of an array of structs, nested list initialiser of T[3][L], flexible array member initialised "
+         "with a string (allocation size, len(p.a), units and the single terminator) and the same pointer argument "
+         "through a compiled API-mode module; reads through ffi.from_buffer('T[]', ...) views and through slices "
+         "arr[i:j] with the zero unit before / inside / after the slice; ffi.string(arr, maxlen) with maxlen larger "
+         "than the array (L+1, L+2, up to the end of the enclosing object, 2**31, 2**32+1 and 2**63-1 when a zero unit "
+         "follows) judged on the units that follow the array; argument conversion of strings whose temporary buffer "
+         "is on both sides of 512 / 640 bytes (astral character first / middle / last); large strings (255..65537 "
+         "units) exact fit, one too short, item assignment between canary rows, for char, signed char, unsigned "
+         "char and the three wide types.",
     note="trusted: ffi.buffer() exposes the bytes of a cdata; gcc (helper library) for what a callee receives; the "
          "UTF-16 pairing rule of the model is the one the statement names")
 
 ELEMS = [("char", "char", "b"), ("signed char", "schar", "b"), ("unsigned char", "uchar", "b"),
-         ("wchar_t", "wchar", "w"), ("char16_t", "char16", "w"), ("char32_t", "char32", "w")]
+         ("wchar_t", "wchar", "w"), ("char16_t", "char16", "w"), ("char32_t", "char32", "w"),
+         # C's character types under other names: distinct ctype objects that share the "1-byte integer" branch of
+         # convert_array_from_object / b_string, which selects on flags and size, not on the name
+         ("int8_t", "int8", "b"), ("uint8_t", "uint8", "b")]
+SIGNED_BYTES = ("signed char", "int8_t")
+UNSIGNED_BYTES = ("unsigned char", "uint8_t")
 
 # alphabets: one representative on each side of every comparison made by
 # convert_array_from_object, _my_PyUnicode_AsChar16/32, _my_PyUnicode_FromChar16, b_string
@@ -47,7 +68,15 @@ FILL = {1: 0x5A, 2: 0x5A5A, 4: 0x05A5A5}      # non-zero in every byte a valid u
 FMT = {1: "B", 2: "H", 4: "I"}
 MAXL = 13
 LSPECS = ("too_short", "exact", "plus1", "plus3", "open")
-PATHS = ("new", "new_dirty", "item", "field")
+PATHS = ("new", "new_dirty", "item", "field",
+         # further routes into convert_array_from_object (audit gap 3) and views with their own length (gap 2)
+         "struct_init_dict", "struct_init_list", "union_field", "nested_field", "elem_field", "nested_list_init",
+         "frombuf")
+OPEN_PATHS = ("new", "new_dirty", "flex_list", "flex_dict")      # array length taken from the string
+FLEX_PATHS = ("flex_list", "flex_dict")
+ARG_PATHS = ("arg", "arg_api")
+PTR_PATHS = ("item", "arg", "arg_api", "union_field", "elem_field")   # also read through a 'T *' cast
+HUGE = (2 ** 31, 2 ** 32 + 1, 2 ** 63 - 1)      # (a maxlen truncated to 32 bits becomes negative / 1)
 
 
 def bounds(quick):
@@ -92,9 +121,9 @@ def dec(w, cls, units):
 
 
 def dec_unpack(T, w, cls, units):
-    if T == "signed char":
+    if T in SIGNED_BYTES:
         return [u - 256 if u > 127 else u for u in units]
-    if T == "unsigned char":
+    if T in UNSIGNED_BYTES:
         return list(units)
     return dec(w, cls, units)
 
@@ -111,14 +140,43 @@ class _St(object):
 
 _ST = None
 _SO = None
+_API = None
+
+
+def helper_src():
+    with open(os.path.join(build.HARNESS, "c15_copy.c")) as f:
+        return f.read()
 
 
 def helper_so():
     global _SO
     if _SO is None or not os.path.exists(_SO):
-        with open(os.path.join(build.HARNESS, "c15_copy.c")) as f:
-            _SO = cref.compile_so(f.read(), name="c15")
+        _SO = cref.compile_so(helper_src(), name="c15")
     return _SO
+
+
+def copy_decls():
+    return "\n".join("void c15_copy_%s(const %s *src, %s *dst, long n);" % (suf, T, T) for T, suf, _ in ELEMS)
+
+
+def helper_api():
+    """The helper compiled as an API-mode module: a 'T *' argument goes through
+    _cffi_prepare_pointer_call_argument / _cffi_convert_array_argument (_cffi_include.h)."""
+    global _API
+    if _API is None or not os.path.exists(_API[1]):
+        import cffi
+        name = "_c15api_%d" % os.getpid()
+        ffi = cffi.FFI()
+        ffi.cdef(copy_decls())
+        ffi.set_source(name, helper_src())
+        d = os.path.join(build.scratch(), "c15api")
+        os.makedirs(d, exist_ok=True)
+        try:
+            path = ffi.compile(tmpdir=d)
+        except Exception as e:
+            raise InfraError("cannot compile the API-mode helper: %s: %s" % (type(e).__name__, e))
+        _API = (name, path)
+    return _API
 
 
 def state():
@@ -126,21 +184,35 @@ def state():
     if _ST is not None and _ST.pid == os.getpid():
         return _ST
     import ctypes
+    import importlib.util
     import cffi
     st = _St()
     st.pid = os.getpid()
     so = helper_so()
-    st.width = [1, 1, 1, ctypes.CDLL(so).c15_sizeof_wchar(), 2, 4]     # measured by gcc
+    cdll = ctypes.CDLL(so)
+    wsize = cdll.c15_sizeof_wchar()                                     # measured by gcc
+    st.width = [wsize if T == "wchar_t" else 2 if T == "char16_t" else 4 if T == "char32_t" else 1
+                for T, _, _ in ELEMS]
+    st.flexoff = [getattr(cdll, "c15_flexoff_" + suf)() for _, suf, _ in ELEMS]      # measured by gcc
     ffi = cffi.FFI()
-    decl = []
+    decl = [copy_decls()]
     for ti, (T, suf, cls) in enumerate(ELEMS):
-        decl.append("void c15_copy_%s(const %s *src, %s *dst, long n);" % (suf, T, T))
+        decl.append("struct c15f_%d { int n; %s a[]; };" % (ti, T))
         for L in range(1, MAXL + 1):
             decl.append("struct c15_%d_%d { %s pre[2]; %s a[%d]; %s post[2]; };" % (ti, L, T, T, L, T))
+            decl.append("union c15u_%d_%d { %s a[%d]; %s w[%d]; };" % (ti, L, T, L, T, L + 2))
+            decl.append("struct c15n_%d_%d { %s pre[1]; struct c15_%d_%d inner; %s post[1]; };" % (
+                ti, L, T, ti, L, T))
     ffi.cdef("\n".join(decl))
     st.ffi = ffi
     st.lib = ffi.dlopen(so)
     st.copy = [getattr(st.lib, "c15_copy_" + suf) for _, suf, _ in ELEMS]
+    name, path = helper_api()
+    spec = importlib.util.spec_from_file_location(name, path)
+    mod = importlib.util.module_from_spec(spec)
+    spec.loader.exec_module(mod)
+    st.apimod = mod
+    st.copy_api = [getattr(mod.lib, "c15_copy_" + suf) for _, suf, _ in ELEMS]
     st.fillbytes = b"\x5a"
 
     def alloc(nbytes):
@@ -149,8 +221,8 @@ def state():
         ffi.buffer(b)[0:nbytes] = (fb * (nbytes // len(fb) + 1))[:nbytes]
         return b
     st.dirty_new = ffi.new_allocator(alloc=alloc, free=None, should_clear_after_alloc=False)
-    st.items = {}
-    st.fields = {}
+    st.objs = {}
+    st.stats = {}
     _ST = st
     return st
 
@@ -167,12 +239,20 @@ def exc_name(e):
     return type(e).__name__
 
 
+def _cached(st, key, make):
+    o = st.objs.get(key)
+    if o is None:
+        o = st.objs[key] = make()
+    return o
+
+
 def one(st, ti, cps, Lspec, path):
-    """Execute one case.  Returns (list of (sig, info), classes)."""
+    """Execute one case.  Returns the list of (sig, info) of the mismatches."""
     ffi = st.ffi
     T, suf, cls = ELEMS[ti]
     w = st.width[ti]
     fill = FILL[w]
+    fillb = fill.to_bytes(w, "little")
     pyval = bytes(cps) if cls == "b" else "".join(map(chr, cps))
     units = enc(w, cps)
     n = len(units)
@@ -183,6 +263,8 @@ def one(st, ti, cps, Lspec, path):
     arr = None
     err = None
     whole = None          # cdata whose buffer is the whole observed region
+    keep = None           # keeps the owner of `whole` alive
+    also = []             # further places (unit index in `whole`) where the same string is stored
     if path in ("new", "new_dirty"):
         tname = "%s[]" % T if Lspec == "open" else "%s[%d]" % (T, L)
         prior = [0] * L if path == "new" else [fill] * L
@@ -191,7 +273,7 @@ def one(st, ti, cps, Lspec, path):
             if path == "new":
                 arr = ffi.new(tname, pyval)
             else:
-                st.fillbytes = fill.to_bytes(w, "little")
+                st.fillbytes = fillb
                 arr = st.dirty_new(tname, pyval)
             whole = arr
         except Exception as e:
@@ -200,10 +282,7 @@ def one(st, ti, cps, Lspec, path):
             probs.append(({"kind": "open_length", "elem": T, "path": path}, {"len": len(arr), "want": n + 1}))
             return probs          # the model below would index past the real allocation
     elif path == "item":
-        key = (ti, L)
-        x = st.items.get(key)
-        if x is None:
-            x = st.items[key] = ffi.new("%s[3][%d]" % (T, L))
+        x = _cached(st, (path, ti, L), lambda: ffi.new("%s[3][%d]" % (T, L)))
         prefill(ffi, x, w, 3 * L)
         prior = [fill] * (3 * L)
         lo = L
@@ -214,10 +293,7 @@ def one(st, ti, cps, Lspec, path):
             err = e
         arr = x[1]
     elif path == "field":
-        key = (ti, L)
-        p = st.fields.get(key)
-        if p is None:
-            p = st.fields[key] = ffi.new("struct c15_%d_%d *" % (ti, L))
+        p = _cached(st, (path, ti, L), lambda: ffi.new("struct c15_%d_%d *" % (ti, L)))
         prefill(ffi, p, w, L + 4)
         prior = [fill] * (L + 4)
         lo = 2
@@ -227,14 +303,107 @@ def one(st, ti, cps, Lspec, path):
         except Exception as e:
             err = e
         arr = p.a
-    elif path == "arg":
+    elif path == "union_field":
+        p = _cached(st, (path, ti, L), lambda: ffi.new("union c15u_%d_%d *" % (ti, L)))
+        prefill(ffi, p, w, L + 2)
+        prior = [fill] * (L + 2)
+        lo = 0
+        whole = p
+        try:
+            p.a = pyval
+        except Exception as e:
+            err = e
+        arr = p.a
+    elif path == "nested_field":
+        p = _cached(st, (path, ti, L), lambda: ffi.new("struct c15n_%d_%d *" % (ti, L)))
+        prefill(ffi, p, w, L + 6)
+        prior = [fill] * (L + 6)
+        lo = 3
+        whole = p
+        try:
+            p.inner.a = pyval
+        except Exception as e:
+            err = e
+        arr = p.inner.a
+    elif path == "elem_field":
+        x = _cached(st, (path, ti, L), lambda: ffi.new("struct c15_%d_%d[3]" % (ti, L)))
+        prefill(ffi, x, w, 3 * (L + 4))
+        prior = [fill] * (3 * (L + 4))
+        lo = (L + 4) + 2
+        whole = x
+        try:
+            x[1].a = pyval
+        except Exception as e:
+            err = e
+        arr = x[1].a
+    elif path in ("struct_init_dict", "struct_init_list"):
+        # the initialiser forms of ffi.new on non-zeroed memory: only `a` is written
+        prior = [fill] * (L + 4)
+        lo = 2
+        st.fillbytes = fillb
+        try:
+            init = {"a": pyval} if path == "struct_init_dict" else [[], pyval, []]
+            whole = keep = st.dirty_new("struct c15_%d_%d *" % (ti, L), init)
+            arr = whole.a
+        except Exception as e:
+            err = e
+    elif path == "nested_list_init":
+        prior = [fill] * (3 * L)
+        lo = L
+        also = [0]
+        st.fillbytes = fillb
+        try:
+            whole = keep = st.dirty_new("%s[3][%d]" % (T, L), [pyval, pyval])
+            arr = whole[1]
+        except Exception as e:
+            err = e
+    elif path in FLEX_PATHS:
+        # struct { int n; T a[]; } initialised with a string: the allocation size is computed from the string
+        # separately from the copy (convert_vfield_from_object); p.a is a T[] whose length lives in the cdata
+        off = st.flexoff[ti]
+        lo = off // w
+        st.fillbytes = fillb
+        try:
+            init = [7, pyval] if path == "flex_list" else {"a": pyval}
+            whole = keep = st.dirty_new("struct c15f_%d *" % ti, init)
+        except Exception as e:
+            err = e
+        if whole is not None:
+            nb = len(ffi.buffer(whole))
+            if nb < off + (n + 1) * w or nb % w:
+                probs.append(({"kind": "flex_allocation", "elem": T, "path": path},
+                              {"bytes": nb, "want_at_least": off + (n + 1) * w}))
+                return probs
+            arr = whole.a
+            if len(arr) != n + 1:
+                probs.append(({"kind": "open_length", "elem": T, "path": path}, {"len": len(arr), "want": n + 1}))
+                return probs
+            head = (7).to_bytes(off, "little") if path == "flex_list" else (fillb * off)[:off]
+            prior = memoryview(head).cast(FMT[w]).tolist() + [fill] * (nb // w - lo)
+    elif path == "frombuf":
+        # no cffi store: the model's memory is written directly; what is exercised are the reads on a
+        # from_buffer('T[]') view (length in the cdata, memory not owned by cffi)
+        prior = [fill] * L
+        lo = 0
+        ba = bytearray(fillb * L)
+        image = units + ([0] if n < L else [])
+        ba[0:len(image) * w] = b"".join(u.to_bytes(w, "little") for u in image)
+        try:
+            whole = arr = ffi.from_buffer("%s[]" % T, ba)
+            keep = ba
+        except Exception as e:
+            err = e
+        if arr is not None and len(arr) != L:
+            probs.append(({"kind": "from_buffer_length", "elem": T, "path": path}, {"len": len(arr), "want": L}))
+            return probs
+    elif path in ARG_PATHS:
         dst = ffi.new("%s[]" % T, L)
         prefill(ffi, dst, w, L)
         prior = [fill] * L
         lo = 0
         whole = dst
         try:
-            st.copy[ti](pyval, dst, n + 1)
+            (st.copy if path == "arg" else st.copy_api)[ti](pyval, dst, n + 1)
         except Exception as e:
             err = e
         arr = dst
@@ -242,10 +411,11 @@ def one(st, ti, cps, Lspec, path):
         raise InfraError("unknown path %r" % (path,))
 
     base = {"elem": T, "path": path}
+    bases = [lo] + also
     if must_raise:
         if err is None:
             probs.append((dict(base, kind="accepted_too_long", cls=ecls), {"L": L, "units": units}))
-        if path in ("item", "field"):
+        if path in ("item", "field", "union_field", "nested_field", "elem_field"):
             obs = raw_units(ffi, whole, w)
             out = [i for i in range(len(obs)) if not (lo <= i < lo + L) and obs[i] != prior[i]]
             if out:
@@ -258,18 +428,19 @@ def one(st, ti, cps, Lspec, path):
         return probs
 
     exp = list(prior)
-    exp[lo:lo + n] = units
-    if n < L:
-        exp[lo + n] = 0
+    for b in bases:
+        exp[b:b + n] = units
+        if n < L:
+            exp[b + n] = 0
     obs = raw_units(ffi, whole, w)
     if len(obs) != len(exp):
         probs.append((dict(base, kind="size", cls=ecls), {"L": L, "obs": obs, "exp": exp}))
         return probs
     if obs != exp:
         diff = [i for i in range(len(exp)) if obs[i] != exp[i]]
-        if any(not (lo <= i < lo + L) for i in diff):
+        if any(not any(b <= i < b + L for b in bases) for i in diff):
             kind = "out_of_bounds_write"
-        elif diff == [lo + n] and n < L and (obs[lo + n] == prior[lo + n] or path == "arg"):
+        elif n < L and all(i in [b + n for b in bases] and (obs[i] == prior[i] or path in ARG_PATHS) for i in diff):
             # the unit after the string kept its old value (for "arg": the callee saw a non-zero unit there)
             kind = "no_terminator"
         else:
@@ -281,38 +452,83 @@ def one(st, ti, cps, Lspec, path):
 
     # string()/unpack() against the units that are really there
     mem = obs[lo:lo + L]
-    if max(mem, default=0) > 0x10FFFF:
+    region = obs[lo:]                 # the array and the known units that follow it in the same object
+    if max(region, default=0) > 0x10FFFF:
         # only reachable after a store mismatch reported above: the units in memory are not
         # characters, so the model has no value for string()/unpack()
         return probs
     z = mem.index(0) if 0 in mem else L
     marks = sorted(m for m in {0, 1, n, n + 1, L} if 0 <= m <= L)
+    # maxlen larger than the array (b_string never clamps an explicit maxlen to the array): the statement's
+    # "stops at the first zero unit within maxlen" is judged on the units that follow the array, which are known
+    # as far as `whole` reaches; beyond that only when a zero unit stops the scan inside `whole`
+    zr = region.index(0) if 0 in region else len(region)
+    beyond = sorted(m for m in {L + 1, L + 2, len(region)} if L < m <= len(region))
+    if beyond and zr < len(region):
+        beyond += list(HUGE)
+        st.stats["maxlen_huge_probed"] = st.stats.get("maxlen_huge_probed", 0) + 1
 
-    def probe(kind, form, fn, want):
+    def probe(kind, form, fn, want, ctx_mem=None):
+        k = "read_%s_%s" % (kind, form)
+        st.stats[k] = st.stats.get(k, 0) + 1
         try:
             got = fn()
         except Exception as e:
             probs.append(({"kind": kind, "form": form, "elem": T, "exc": exc_name(e)},
-                          {"L": L, "mem": mem, "error": str(e), "want": want}))
+                          {"L": L, "mem": ctx_mem or mem, "error": str(e), "want": want}))
             return
         try:
             same = type(got) is type(want) and got == want
         except Exception:
             same = False
         if not same:
-            probs.append(({"kind": kind, "form": form, "elem": T}, {"L": L, "mem": mem, "got": got, "want": want}))
+            probs.append(({"kind": kind, "form": form, "elem": T},
+                          {"L": L, "mem": ctx_mem or mem, "got": got, "want": want}))
 
     probe("string", "array", lambda: ffi.string(arr), dec(w, cls, mem[:z]))
+    probe("string", "array_maxlen_minus1", lambda: ffi.string(arr, -1), dec(w, cls, mem[:z]))
     for m in marks:
         probe("string", "array_maxlen", lambda: ffi.string(arr, m), dec(w, cls, mem[:min(z, m)]))
         probe("unpack", "array", lambda: ffi.unpack(arr, m), dec_unpack(T, w, cls, mem[:m]))
-    if path in ("item", "arg"):
+    for m in beyond:
+        probe("string", "array_maxlen_beyond", lambda: ffi.string(arr, m), dec(w, cls, region[:min(zr, m)]), region)
+    if path in PTR_PATHS:
         ptr = ffi.cast("%s *" % T, arr)
         if z < L:
             probe("string", "pointer", lambda: ffi.string(ptr), dec(w, cls, mem[:z]))
         for m in marks:
             probe("string", "pointer_maxlen", lambda: ffi.string(ptr, m), dec(w, cls, mem[:min(z, m)]))
             probe("unpack", "pointer", lambda: ffi.unpack(ptr, m), dec_unpack(T, w, cls, mem[:m]))
+        for m in beyond:
+            probe("string", "pointer_maxlen_beyond", lambda: ffi.string(ptr, m),
+                  dec(w, cls, region[:min(zr, m)]), region)
+
+    # slices: arrays 'T[]' whose length lives in the cdata (cdata_slice -> new_sized_cdata), with the zero unit
+    # before / at the start of / inside / after the slice
+    for (i, j) in sorted({(1, L), (0, z), (z, L), (1, 1), (0, L), (z + 1, L)}):
+        if not 0 <= i <= j <= L:
+            continue
+        try:
+            sl = arr[i:j]
+            if len(sl) != j - i:
+                raise ValueError("len(arr[%d:%d]) == %d" % (i, j, len(sl)))
+        except Exception as e:
+            probs.append(({"kind": "slice", "elem": T, "exc": exc_name(e)}, {"L": L, "i": i, "j": j, "error": str(e)}))
+            continue
+        smem = mem[i:j]
+        sreg = region[i:]
+        k = "slice_zero_%s" % ("none" if z == L else "before" if z < i else "at_start" if z == i else
+                               "inside" if z < j else "after")
+        st.stats[k] = st.stats.get(k, 0) + 1
+        sz = smem.index(0) if 0 in smem else len(smem)
+        szr = sreg.index(0) if 0 in sreg else len(sreg)
+        probe("string", "slice", lambda: ffi.string(sl), dec(w, cls, smem[:sz]), smem)
+        for m in sorted({1, j - i, j - i + 1}):
+            # an explicit maxlen is not clamped to the slice either: judged on the units that follow its start
+            if i + m <= len(region):
+                probe("string", "slice_maxlen" if m <= j - i else "slice_maxlen_beyond",
+                      lambda: ffi.string(sl, m), dec(w, cls, sreg[:min(szr, m)]), sreg)
+        probe("unpack", "slice", lambda: ffi.unpack(sl, j - i), dec_unpack(T, w, cls, smem), smem)
 
     # the round trip of the statement
     if path == "new" and Lspec == "open" and 0 not in cps:
@@ -359,20 +575,88 @@ def cases_of(cps_len_units):
         L = {"too_short": n - 1, "exact": n, "plus1": n + 1, "plus3": n + 3, "open": n + 1}[Lspec]
         if L < 0:
             continue
-        for path in PATHS:
-            if Lspec == "open" and path not in ("new", "new_dirty"):
+        for path in PATHS + FLEX_PATHS:
+            if path in FLEX_PATHS and Lspec != "open":
+                continue          # the flexible member always takes its length from the string
+            if Lspec == "open" and path not in OPEN_PATHS:
                 continue
-            if path in ("item", "field") and L < 1:
-                continue
+            if path not in OPEN_PATHS and L < 1:
+                continue          # no zero-length members / rows
+            if path == "frombuf" and Lspec == "too_short":
+                continue          # nothing is stored through cffi on that path
             out.append((Lspec, path))
-    out.append(("pointer", "arg"))
+    for path in ARG_PATHS:
+        out.append(("pointer", path))
     return out
 
 
 MAX_DETAILS = 2
 
+# argument conversion with temporaries on both sides of the size thresholds of the two call paths
+# (_cffi_include.h: alloca up to 640 bytes, else malloc; b_call: its own alloca'd buffer): total unit counts
+# (string + terminator) around 128/160/256/320/512/640, i.e. 512 and 640 BYTES for every unit width, and
+# 512/640 units
+ARGB_UNITS = (127, 128, 129, 159, 160, 161, 255, 256, 257, 319, 320, 321, 511, 512, 513, 639, 640, 641)
+ARGB_ASTRAL = ("none", "first", "middle", "last")
+
+
+def argb_string(cls, w, total, astral):
+    """Code points of a string that occupies total-1 units (total with the terminator)."""
+    n = total - 1
+    if cls == "b":
+        return [(i % 255) + 1 for i in range(n)]
+    au = 2 if w == 2 else 1                      # units taken by the astral character
+    nplain = n - au if astral != "none" else n
+    cps = [0x21 + (i % 0x5D) if i % 5 else 0x100 + (i % 0x700) for i in range(nplain)]
+    if astral != "none":
+        at = {"first": 0, "middle": nplain // 2, "last": nplain}[astral]
+        cps.insert(at, 0x1F600)
+    return cps
+
+
+def argb_one(st, ti, mode, total, astral):
+    ffi = st.ffi
+    T, suf, cls = ELEMS[ti]
+    w = st.width[ti]
+    cps = argb_string(cls, w, total, astral)
+    units = enc(w, cps)
+    if len(units) != total - 1:
+        raise InfraError("argb_string: %d units for %d" % (len(units), total - 1))
+    pyval = bytes(cps) if cls == "b" else "".join(map(chr, cps))
+    dst = ffi.new("%s[]" % T, total + 1)
+    prefill(ffi, dst, w, total + 1)
+    try:
+        (st.copy if mode == "abi" else st.copy_api)[ti](pyval, dst, total)
+    except Exception as e:
+        return {"kind": "argb_exception", "exc": exc_name(e)}, str(e)
+    obs = raw_units(ffi, dst, w)
+    exp = units + [0, FILL[w]]
+    if obs != exp:
+        diff = [i for i in range(len(exp)) if obs[i] != exp[i]]
+        return {"kind": "argb_no_terminator" if diff == [total - 1] else "argb_wrong_units"}, {"first_diff": diff[:4]}
+    return None
+
+
+def argb_work(ti, mode):
+    """All argument-boundary cases of one (type, mode); run in a pool worker so that a crash is contained."""
+    st = state()
+    T, suf, cls = ELEMS[ti]
+    ncases = 0
+    bad = []
+    for total in ARGB_UNITS:
+        for astral in (ARGB_ASTRAL if cls == "w" else ("none",)):
+            ncases += 1
+            r = argb_one(st, ti, mode, total, astral)
+            if r is not None:
+                bad.append((dict(r[0], elem=T, mode=mode, family="arg_boundary"),
+                            {"argb": True, "ti": ti, "mode": mode, "total": total, "astral": astral,
+                             "info": _safe(r[1])}))
+    return ncases, bad
+
 
 def work(item):
+    if item[0] == "argb":
+        return argb_work(item[1], item[2])
     ti, n, first = item
     st = state()
     T, suf, cls = ELEMS[ti]
@@ -381,6 +665,7 @@ def work(item):
     counts = {}
     bad = {}
     ncases = nontriv = nstrings = 0
+    st.stats = {}
     if n == 0:
         strings = [()]
     else:
@@ -401,6 +686,7 @@ def work(item):
                 ent[1] += 1
                 if len(ent[2]) < MAX_DETAILS:
                     ent[2].append({"ti": ti, "cps": list(cps), "Lspec": Lspec, "path": path, "info": _safe(info)})
+    counts.update(st.stats)
     return nstrings, ncases, nontriv, counts, list(bad.values())
 
 
@@ -424,9 +710,11 @@ def _safe(o):
 
 def run(ctx):
     from . import _large
-    _large.c15(ctx)           # lengths on both sides of 2**8, 2**12, 2**16 (see _large.py)
+    nlarge = _large.c15(ctx)           # lengths on both sides of 2**8, 2**12, 2**16 (see _large.py)
     b = bounds(ctx.quick)
     helper_so()                       # compiled once, inherited by the forked workers
+    helper_api()                      # (the API-mode module too)
+    nargb = 0
     items = []
     for ti, (T, suf, cls) in enumerate(ELEMS):
         alph = BYTE_ALPH if cls == "b" else WIDE_ALPH
@@ -435,13 +723,24 @@ def run(ctx):
                 items.append((ti, n, first))
         items.append((ti, 0, None))
     items.sort(key=lambda it: -it[1])
+    items += [("argb", ti, mode) for ti in range(len(ELEMS)) for mode in ("abi", "api")]
     tot_strings = tot_cases = tot_nontriv = 0
     allbad = {}
     for item, r in pool.pmap(work, [[it] for it in items]):
         if isinstance(r, pool.WorkerError):
             raise InfraError(r.tb)
         if isinstance(r, pool.Crash):
-            ctx.violation({"kind": "crash", "elem": ELEMS[item[0]][0]}, {"item": item, "how": r.describe()})
+            if item[0] == "argb":
+                ctx.violation({"kind": "crash", "elem": ELEMS[item[1]][0], "mode": item[2], "family": "arg_boundary"},
+                              {"item": item, "how": r.describe()})
+            else:
+                ctx.violation({"kind": "crash", "elem": ELEMS[item[0]][0]}, {"item": item, "how": r.describe()})
+            continue
+        if item[0] == "argb":
+            nargb += r[0]
+            ctx.count("arg_boundary_cases", r[0])
+            for sig, det in r[1]:
+                ctx.violation(sig, det)
             continue
         ns, nc, nt, counts, bad = r
         tot_strings += ns
@@ -455,7 +754,7 @@ def run(ctx):
             ent[2].extend(details)
         if item[1] == 2:
             ctx.sample({"elem": ELEMS[item[0]][0], "strings": "all of length 2 starting with unit 0x%X" % item[2],
-                        "lengths": list(LSPECS), "paths": list(PATHS) + ["arg"]})
+                        "lengths": list(LSPECS), "paths": list(PATHS + FLEX_PATHS + ARG_PATHS)})
     # report the smallest examples of every signature first (deterministic order)
     for key in sorted(allbad):
         sig, cnt, details = allbad[key]
@@ -463,17 +762,30 @@ def run(ctx):
         for i in range(cnt):
             ctx.violation(sig, details[min(i, 2, len(details) - 1)])
     cov = {
-        "evaluations": tot_cases,
-        "distinct_nontrivial": tot_nontriv,
+        "evaluations": tot_cases + nargb + nlarge,
+        "distinct_nontrivial": tot_nontriv + nargb + nlarge,
         "strings": tot_strings,
-        "rule": "every string of length <= %d over %r (char, signed char, unsigned char) and of length <= %d over %r "
+        "arg_boundary_cases": nargb,
+        "large_cases": nlarge,
+        "rule": "every string of length <= %d over %r (char, signed char, unsigned char, int8_t, uint8_t) and of length <= %d over %r "
                 "(wchar_t, char16_t, char32_t; code points above 0xFFFF are two units for char16_t) x array length "
                 "{units-1, units, units+1, units+3, open} x path {new, new with a non-zeroing allocator, x[1] = s on "
-                "T[3][L], p.a = s on struct{T pre[2]; T a[L]; T post[2]}} + a 'T *' function argument; a case is one "
+                "T[3][L], p.a = s on struct{T pre[2]; T a[L]; T post[2]}, ffi.new of that struct from {'a': s} and from "
+                "[[], s, []] on non-zeroed memory, p.a = s on union{T a[L]; T w[L+2]}, p.inner.a = s on a nested "
+                "struct, x[1].a = s on an array of 3 structs, ffi.new('T[3][L]', [s, s]) on non-zeroed memory, a "
+                "from_buffer('T[]') view of a bytearray holding the model's units (reads only)} + (open only) "
+                "struct{int n; T a[];} initialised from [7, s] and {'a': s} + a 'T *' function argument through the "
+                "in-line ABI library and through a compiled API-mode module; after every store: string/unpack with "
+                "maxlen in {0, 1, units, units+1, L, -1}, where the object extends beyond the array also {L+1, L+2, "
+                "to the end of the object, 2**31, 2**32+1, 2**63-1 (when a zero unit follows)}, and string/unpack on the "
+                "slices {[1:L], [0:z], [z:L], [z+1:L], [1:1], [0:L]} (z = first zero unit); a case is one "
                 "(type, string, length, path); non-trivial = the array length differs from the string length (a "
                 "terminator or a refusal is involved) or the string holds a zero unit, a byte >= 0x80, a surrogate or "
-                "an astral code point (cases are distinct by construction; counted)" % (
-                    b["b"], list(BYTE_ALPH), b["w"], list(WIDE_ALPH)),
+                "an astral code point (cases are distinct by construction; counted).  Plus %d argument-boundary "
+                "cases (8 types x {ABI, API} x string+terminator of %r units x astral character {none, first, "
+                "middle, last} for the wide types) and %d large-size cases (see _large.c15), all non-trivial (a "
+                "terminator is always involved)" % (
+                    b["b"], list(BYTE_ALPH), b["w"], list(WIDE_ALPH), nargb, list(ARGB_UNITS), nlarge),
         "exhaustive": True,
         "bound": {"max_len_byte_types": b["b"], "max_len_wide_types": b["w"]},
     }
@@ -497,8 +809,22 @@ def replay(detail):
                 print("VIOLATED", sig, d)
         _large.c15(_C())
         return 1 if _C.n else 0
+    if "item" in detail and "ti" not in detail:
+        # a worker crashed on this block of cases: run the whole block here (a crash of this process reproduces it)
+        item = tuple(detail["item"])
+        print("re-running the block %r in this process" % (item,))
+        r = work(item)
+        bad = r[-1]
+        print("the block ran to completion; %d mismatching signature(s)" % len(bad))
+        return 1 if bad else 0
     st = state()
     ti = detail["ti"]
+    if detail.get("argb"):
+        print("argument boundary: element type %s, %s mode, %d units with the terminator, astral character: %s" % (
+            ELEMS[ti][0], detail["mode"], detail["total"], detail["astral"]))
+        r = argb_one(st, ti, detail["mode"], detail["total"], detail["astral"])
+        print("MISMATCH %r" % (r,) if r else "no mismatch")
+        return 1 if r else 0
     cps = tuple(detail["cps"])
     T = ELEMS[ti][0]
     print("element type %s, string units/code points %s, array length %s, path %s" % (
